@@ -25,6 +25,7 @@ from .db import ProgramDB, FuncInfo, ClassInfo, dotted, unparse, AnalysisError
 from .cfg import CFG, Node, Edge, run_forward
 
 TOP = ("top",)
+EMPTY = ("empty",)       # an empty container literal: falsy, not None, contains nothing
 NONE = ("const", None)
 TRUE = ("const", True)
 FALSE = ("const", False)
@@ -37,6 +38,8 @@ def const(v):
 def truth(v) -> Optional[bool]:
     if v == TOP:
         return None
+    if v == EMPTY:
+        return False
     k = v[0]
     if k == "const":
         try:
@@ -107,6 +110,8 @@ class State:
 def fmt(v) -> str:
     if v == TOP:
         return "?"
+    if v == EMPTY:
+        return "<empty>"
     if v[0] == "const":
         return repr(v[1])
     if v[0] == "tuple":
@@ -208,6 +213,8 @@ class AbsEval:
                 for r in rs:
                     out |= self._compare(e.ops[0], l, r)
             return out
+        if isinstance(e, (ast.Dict, ast.List, ast.Set, ast.Tuple)) and not (e.keys if isinstance(e, ast.Dict) else e.elts):
+            return {EMPTY}
         if isinstance(e, ast.Tuple):
             parts = [self.eval(x, st) for x in e.elts]
             if all(len(p) == 1 for p in parts):
@@ -257,7 +264,7 @@ class AbsEval:
                 other = l if r == NONE else r
                 n = is_none(other)
                 eq = n
-            elif l == TOP or r == TOP or l[0] == "obj" or r[0] == "obj":
+            elif l == TOP or r == TOP or l[0] == "obj" or r[0] == "obj" or l == EMPTY or r == EMPTY:
                 eq = None
             elif l[0] in ("const", "sym", "fn", "cls", "tuple") and r[0] in ("const", "sym", "fn", "cls", "tuple"):
                 eq = (l == r)
@@ -265,6 +272,8 @@ class AbsEval:
                 return both
             return {const(eq != neg)}
         if isinstance(op, (ast.In, ast.NotIn)):
+            if r == EMPTY:
+                return {const(isinstance(op, ast.NotIn))}
             if r[0] == "tuple" and l != TOP and all(x != TOP for x in r[1]):
                 res = l in r[1]
                 return {const(res != isinstance(op, ast.NotIn))}
